@@ -234,3 +234,55 @@ def _history(N: int, K: int | None, e: int | None, steps: list[int]) -> None:
             for s in m.open_socks():
                 if s.host == host and m.is_idle(s):
                     s.peer_close()
+
+
+@harness(
+    "C09", "expired_closed_under_cancel",
+    quick=[{"ct": ct, "why": why} for ct in ("h11", "h2") for why in ("expired", "server-closed") if not (ct == "h2" and why == "server-closed")],
+    example=dict(cz=6, one_shot=False),
+    require=("cancelled", "undisturbed"),
+    timeout={"quick": 200, "thorough": 400},
+    symbolic="the scheduler step at which the caller of the *next* request (to another origin) is cancelled (0 = not at all, 1..40), scope-style or one-shot",
+    bounds="one idle connection whose keep-alive expiry has elapsed / that the server has closed; the next request arrives and is cancelled at a symbolic step; the back end's close() suspends before it takes effect",
+    outside="more than one stale connection",
+    stubs=("model runtime; simulated back end whose aclose() has a checkpoint before the close takes effect",),
+)
+def expired_closed_under_cancel(cz: int, one_shot: bool) -> None:
+    """
+    pre: 0 <= cz <= 40
+    post: _
+    """
+    c = ladder(cz, 0, 40)
+    os_ = bool(one_shot)
+    with concrete(c, os_):
+        from .conc import Caller, run_callers
+
+        ct, why = shard("ct", "h11"), shard("why", "expired")
+        su = Setup(ct, True, max_connections=2, keepalive_expiry=5, clock=100)
+        su.net.close_suspends_first = True
+        o1 = su.api.request(su.pool, "GET", su.url("first", host="a.test"), extensions={"timeout": {"pool": 0, "read": 5}})
+        if not P.check(o1.ok and len(su.net.socks) == 1, "first-ok", "stale:first"):
+            return
+        sock = su.net.socks[0]
+        if why == "expired":
+            vrt.RT.clock = vrt.RT.clock + 10
+        else:
+            sock.peer_close()
+        rt = vrt.new_runtime(clock=vrt.RT.clock)
+        vrt.RT.phase = su._phase
+        callers = [Caller("n", su.url("n", host="b.test"), b"n")]
+        run_callers(su, callers, [], [("n", c, os_)] if c else [])
+        P.reached()
+        cancelled = isinstance(callers[0].exc, vrt.Cancelled)
+        P.cover("cancelled" if cancelled else "undisturbed")
+        sig = f"stale:{ct}:{why}:{'cancelled' if cancelled else 'undisturbed'}"
+        # the stale connection is never kept, and never dropped unclosed - whatever happens to the request whose
+        # arrival made the pool look at it
+        stale_pooled = [x for x in su.pool.connections if not x.is_closed() and x.has_expired()]
+        if callers[0].finished and (callers[0].exc is None or cancelled):
+            P.check(not stale_pooled or cancelled and c <= 2, "stale-connection-not-kept", lambda: f"{sig}:kept")
+            if not any(sock is getattr(x, "_sim", None) for x in ()):
+                gone = not any(s is sock for s in su.net.open_socks())
+                still_pooled = len(su.pool.connections) > 0 and any(getattr(getattr(x, "_connection", None), "_network_stream", None) is not None
+                                                                    and not x.is_closed() and x.has_expired() for x in su.pool.connections)
+                P.check(gone or still_pooled, "stale-connection-closed-when-dropped", lambda: f"{sig}:dropped-unclosed")
